@@ -13,7 +13,8 @@ def sh(cmd, **kw):
     return subprocess.run(cmd, shell=True, capture_output=True, text=True, **kw)
 r = sh("git -C /repo worktree add --detach %s HEAD" % wt)
 assert r.returncode == 0, r.stderr
-env = dict(os.environ, PYTHONPATH=wt + "/src")
+scratch_tmp = tempfile.mkdtemp(prefix="try_tmp_", dir="/tmp")      # demos / tests leak temporary directories
+env = dict(os.environ, PYTHONPATH=wt + "/src", TMPDIR=scratch_tmp)
 res = {"property": pid, "mutation": k}
 try:
     demo = os.path.join(sdir, "m%s_demo.py" % k)
@@ -40,6 +41,7 @@ try:
         res["check_" + c] = {"rc": cr.returncode, "lines": [l[:400] for l in lines][:12]}
     shutil.rmtree(ev, ignore_errors=True)
 finally:
+    shutil.rmtree(scratch_tmp, ignore_errors=True)
     sh("git -C /repo worktree remove --force %s" % wt)
     shutil.rmtree(wt, ignore_errors=True)
 print(json.dumps(res, indent=1))
